@@ -133,7 +133,15 @@ pub fn deliver_at(buffers: &Buffers, mut packet: Packet, at_us: u64, shared: &Ne
             io::time::delay(Duration::from_micros(at_us - now)).await;
         }
         let dst: SocketAddress = *packet.path.local_address;
-        buffers.rx(dst, |queue| queue.enqueue(packet));
+        // (an address nobody is bound to any more, e.g. after a rebinding, swallows the datagram)
+        let mut arrived = false;
+        buffers.rx(dst, |queue| {
+            queue.enqueue(packet);
+            arrived = true;
+        });
+        if !arrived {
+            return;
+        }
         // the actual arrival instant, as the receiving endpoint's clock sees it
         if let Ok(mut st) = shared.lock() {
             if let Some(rec) = st.log.get_mut(rec_idx) {
